@@ -251,6 +251,20 @@ Example C04_ex_damaged :
              [true; false] = true.
 Proof. vm_compute. repeat split; reflexivity. Qed.
 
+(* read_object of ONE slab member [0,4) of a 7-byte slab: truncation at 4, 5, 6 changes nothing, truncation below 4 and
+   deletion raise; a whole-file tensor (object 1, 6 bytes) is damaged by EVERY truncation *)
+Example C04_ex_member_only :
+  let ls := [mkLeaf 0 (Some (0, 4)) (RdTensor 2 [2])] in
+  forallb (fun b => forallb (fun t => match rd_restore bytes rd_toy_load false b ls (rd_apply (RdTruncated t) 0 C04_ex_store) with
+                                      | Some [(0, RdBytes [10; 11; 12; 13])] => true | _ => false end) [4; 5; 6]) [true; false] = true
+  /\ forallb (fun b => forallb (fun d => match rd_restore bytes rd_toy_load false b ls (rd_apply d 0 C04_ex_store) with
+                                         | None => true | Some _ => false end)
+                                [RdTruncated 0; RdTruncated 1; RdTruncated 3; RdDeleted]) [true; false] = true
+  /\ forallb (fun b => forallb (fun t => match rd_restore bytes rd_toy_load false b [mkLeaf 1 None (RdTensor 2 [3])]
+                                                (rd_apply (RdTruncated t) 1 C04_ex_store) with
+                                         | None => true | Some _ => false end) [0; 1; 2; 3; 4; 5]) [true; false] = true.
+Proof. vm_compute. repeat split; reflexivity. Qed.
+
 (* a slab holding only a zero-length tensor: any truncation is harmless, deletion raises *)
 Example C04_ex_empty_only :
   let ls := [mkLeaf 0 (Some (3, 3)) (RdTensor 4 [0; 3])] in
